@@ -387,6 +387,12 @@ class E3Check:
             print("CHECK-ERROR property=%s no case was executed: %s" % (self.prop, " | ".join(errors)[:2000]))
             rep.finish()
             return 2
+        if not rep.violations and cov["inconclusive"] >= 6 and cov["inconclusive"] * 2 > cov["evaluations"]:
+            # a time budget hit is never a violation, but a run in which most cases hit it has decided nothing and must not look like a pass
+            print("CHECK-ERROR property=%s %d of %d cases exceeded the per-case budget (executor neither finished nor went idle): nothing was decided" %
+                  (self.prop, cov["inconclusive"], cov["evaluations"]))
+            rep.finish()
+            return 2
         return None
 
     def replay_program(self, runner, text, active_cpus, runs, known):
